@@ -2,7 +2,7 @@
 import json
 import os
 
-from . import common, export, regcheck
+from . import common, export, regcheck, regtrace
 
 
 def table_part(rep, bd, thorough):
@@ -81,6 +81,14 @@ def main(tier):
         regcheck.emit_and_replay(rep, bd, "systematic sample of the transitions at depth 3", 3, "c14", "small", every=12,
                                  offset=common.sample_seed(), stats=stats)
     table_part(rep, bd, thorough)
+    # direction B: recorded executions validated by TLC against the reference semantics (MC_RegTrace.tla)
+    import random
+    _db, posc = regtrace.posc_history()
+    regtrace.validate(rep, bd, posc, "registration history of the shipped POSC database (AddUnitBase / AddUnit / AddCategory calls)", "posc")
+    rng = random.Random(common.seed() + 14)
+    hist = regtrace.random_histories(rng, 400 if thorough else 80, 60 if thorough else 40, queries=False)
+    regtrace.validate(rep, bd, hist, "seeded deep registration histories with the projected registry after every call", "deep")
+    rep.cov["binding_self_test"] = regtrace.self_test(bd, hist)
     rep.count(evaluations=stats["replayed"], nontrivial=stats["replayed"], traces=stats["replayed"])
     rep.cov["replayed_by_last_op"] = stats["ops"]
     rep.cov["exhaustive"] = False
